@@ -666,6 +666,17 @@ def run(ctx):
                         continue
                     ok = isinstance(par, ast.Attribute) and par.attr == 'append' and isinstance(parents.get(par), ast.Call) \
                         and parents.get(par).func is par
+                    if not ok and fi.cls is not None and fi.name in ('__len__', '__iter__', '__contains__', '__getitem__', '__reversed__'):
+                        # a container view of the derived children is an observer of the bookkeeping, not a derivation result -
+                        # provided it cannot leak into one: truth tests on nodes must not go through __len__ (an explicit
+                        # __bool__ that answers True), and what the derivation API returns is compared on fresh and used
+                        # objects by C13.HISTORY
+                        bm = fi.cls.find_method('__bool__')
+                        rets = [x for x in ast.walk(bm.node) if isinstance(x, ast.Return)] if bm is not None else []
+                        if rets and all(isinstance(r_.value, ast.Constant) and r_.value.value is True for r_ in rets):
+                            ob.evaluations += 1
+                            ob.note('%s is a container view of the children list (node truthiness is pinned by __bool__)' % fi.qual[len(PKG) + 1:])
+                            continue
                     ob.require(ok, '%s reads the bookkeeping list `children` (%s): results could depend on which children were '
                                'derived before (history), which this property forbids relying on; a semantically transparent cache '
                                'cannot be told apart statically and is reported too' % (fi.qual[len(PKG) + 1:], ast.unparse(par) if par is not None else 'children'), where)
@@ -800,10 +811,22 @@ def _check_object_generator(ctx, fg):
         G = objs[0]
         ci = p.classes[G[1]]
         nxt, itr, snd = ci.find_method('__next__'), ci.find_method('__iter__'), ci.find_method('send')
-        if nxt is None or itr is None:
+        # collections.abc.Generator / typing.Generator as a base class supply __next__ = send(None) and __iter__ = self;
+        # collections.abc.Iterator supplies __iter__ = self
+        ext_bases = {b.split('.')[-1] for c_ in ci.mro() for b in c_.base_names}
+        abc_gen = 'Generator' in ext_bases and snd is not None
+        abc_iter = abc_gen or 'Iterator' in ext_bases
+        if (nxt is None and not abc_gen) or (itr is None and not abc_iter):
             ob.require(False, 'the object address_generator returns (%s) is not an iterator: __next__ / __iter__ missing' % ci.name, fg.where)
             return
         key = lambda fi: fi.qual[len(PKG) + 1:]
+        if nxt is None:
+            ob.note('__next__ comes from collections.abc.Generator: send(None)')
+
+        def do_next(g):
+            if nxt is not None:
+                return call_on(ev, g, key(nxt))
+            return call_on(ev, g, key(snd), {snd.params[1]: T.NONE})
 
         def step_ok(val, idx, what):
             child = C17._ckd(node, idx)
@@ -813,16 +836,20 @@ def _check_object_generator(ctx, fg):
                 of = T.sym_meta(x, 'of')
                 return of is not None and of[0] == node and T.hoist(of[1]) == T.hoist(idx)
             for leaf in distinct_normal_leaves(val) or [val]:
+                if T.opaques(leaf):
+                    ob.undecided('%s: value not computable by the evaluator (%s)' % (what, '; '.join(sorted({o[1] for o in T.opaques(leaf)}))[:200]),
+                                 (nxt or snd).where)
+                    continue
                 ok = T.tag(leaf) == 'tuple' and len(leaf[1]) == 2 and T.is_op(leaf[1][1], 'APPLY') and leaf[1][1][2] == addr \
                     and len(leaf[1][1]) == 4 and is_child(leaf[1][1][3]) and T.contains(leaf[1][0], is_child) \
                     and not T.contains(leaf[1][0], lambda x: T.tag(x) == 'sym' and x[1] == 'CKD' and not is_child(x))
-                ob.require(ok, '%s yields (str(child), addr_fnc(child)) for child = node.ckd(%s)' % (what, T.show(idx)), nxt.where,
+                ob.require(ok, '%s yields (str(child), addr_fnc(child)) for child = node.ckd(%s)' % (what, T.show(idx)), (nxt or snd).where,
                            expected='(str(ckd(%s)), addr_fnc(ckd(%s)))' % (T.show(idx), T.show(idx)), found=T.show(leaf, maxdepth=5))
-        v0, G1 = call_on(ev, G, key(nxt))
+        v0, G1 = do_next(G)
         step_ok(v0, T.const(0), 'the first next()')
-        v1, G2 = call_on(ev, G1, key(nxt))
+        v1, G2 = do_next(G1)
         step_ok(v1, T.const(1), 'the second next()')
-        v2, G3 = call_on(ev, G2, key(nxt))
+        v2, G3 = do_next(G2)
         step_ok(v2, T.const(2), 'the third next()')
         if snd is not None:
             sent = T.sym('sent', type=None)
@@ -831,18 +858,28 @@ def _check_object_generator(ctx, fg):
             step_ok(vs, T.add(T.const(1), T.phi(T.truth(sent), sent, T.const(1))), 'send(n) after two steps')
         # iter() of an iterator is the iterator itself, position included
         for lab, g, nextidx in (('a fresh generator', G, 0), ('a generator that has produced two addresses', G2, 2)):
+            if itr is None:
+                ob.note('__iter__ comes from collections.abc: it returns the iterator itself')
+                break
             it, _ = call_on(ev, g, key(itr))
             for leaf in distinct_normal_leaves(it) or [it]:
                 if T.tag(leaf) != 'obj':
                     ob.require(False, 'iter() of %s is an iterator object' % lab, itr.where, found=T.show(leaf, maxdepth=3))
                     continue
-                vi, _ = call_on(ev, leaf, key(nxt))
+                vi, _ = do_next(leaf)
                 step_ok(vi, T.const(nextidx), 'next(iter(g)) on %s continues where g stands (iter() must not restart or fork the position):' % lab)
         # the default address function
         vd, _ = ev.call_function('base_wallet.BaseWallet.address_generator', [w, node, T.NONE])
-        ok = any(T.tag(x) == 'bound' and x[2].endswith('BaseWallet.p2wpkh_address') for o_ in distinct_normal_leaves(vd) if T.tag(o_) == 'obj'
-                 for x in T.obj_fields(o_).values())
-        ob.require(ok, 'the default address function is p2wpkh_address', fg.where)
+        gd = [o_ for o_ in distinct_normal_leaves(vd) if T.tag(o_) == 'obj']
+        ok = False
+        if len(gd) == 1:
+            first, _ = do_next(gd[0])
+            want, _ = ev.call_function('base_wallet.BaseWallet.p2wpkh_address', [w, C17._ckd(node, T.const(0))])
+            fl = distinct_normal_leaves(first)
+            wl = {T.hoist(x) for x in distinct_normal_leaves(want)}
+            ok = len(fl) >= 1 and all(T.tag(x) == 'tuple' and len(x[1]) == 2 for x in fl) \
+                and {T.hoist(y) for x in fl for y in distinct_normal_leaves(x[1][1])} == wl
+        ob.require(ok, 'the default address function is p2wpkh_address (first address of a generator built without one)', fg.where)
 
 
 def _global_state_hits(tree, containers):
